@@ -131,12 +131,11 @@ def guarded_parse(src, std="f2003", ignore_comments=True, want_str=False, budget
         return Outcome("budget", exc=e, text="budget exceeded")
     except SystemExit as e:
         where, chain = _innermost_fparser_frame(e.__traceback__)
-        # the frame that called reader.error()/sys.exit: innermost non-readfortran frame
+        # identify the call site of reader.error() (the frame just above it), else the innermost frame
         caller = None
-        for c in reversed(chain):
-            if not c.startswith("readfortran.py"):
-                caller = c
-                break
+        for i, c in enumerate(chain):
+            if c.endswith(".error") and c.startswith("readfortran.py") and i > 0:
+                caller = chain[i - 1]
         return Outcome("exit", exc=e, text="SystemExit(%r)" % (e.code,), where=caller or where)
     except RecursionError as e:
         return Outcome("other", exc=e, text="RecursionError", where="RecursionError")
